@@ -60,10 +60,10 @@ def is_u8_sink_type(ty):
 
 class Frame:
     """one activation on a replayed path: the outermost function or an inlined local callee"""
-    __slots__ = ("body", "it", "ret", "depth")
+    __slots__ = ("body", "it", "ret", "depth", "wrap")
 
-    def __init__(self, body, it, ret, depth):
-        self.body, self.it, self.ret, self.depth = body, it, ret, depth
+    def __init__(self, body, it, ret, depth, wrap=None):
+        self.body, self.it, self.ret, self.depth, self.wrap = body, it, ret, depth, wrap
 
 
 class Extractor:
@@ -228,10 +228,59 @@ class Extractor:
         nfr = Frame(cb, cit, (fr, bi, used, exiting, res), fr.depth + 1)
         self._dfs(nfr, 0, toks, {}, frozenset(), res, S2)
 
+    def _option_map(self, fr, bi, toks, used, exiting, res, S):
+        """Option::map(opt, |x| ..) with a small local closure: None stays None, Some(x) continues inside the closure"""
+        body, it = fr.body, fr.it
+        t = body.blocks[bi]["term"]
+        if norm_name(t["callee"].get("pretty")) != "core::option::Option::map" or t.get("t") is None or fr.depth >= self.inline_depth:
+            return False
+        it.cur = (bi, len(body.blocks[bi]["stmts"]))
+        it.counter = 0
+        args = [it.eval_op(S, a) for a in t["args"]]
+        clo = args[1] if len(args) > 1 else None
+        if not (isinstance(clo, tuple) and clo[0] == "agg" and isinstance(clo[1], tuple) and clo[1][0] == "closure" and clo[1][1] in self.prog.bodies):
+            return False
+        cb = self.prog.bodies[clo[1][1]]
+        if cb.loops or sum(1 for b in cb.blocks if not b["cleanup"]) > self.inline_blocks or cb.arg_count != 2:
+            return False
+        opt = args[0]
+        d = it.discr_of(S, opt, it.op_type(t["args"][0]))
+        dloc = None
+        for val in (0, 1):
+            S2 = S.copy()
+            it.assume(S2, d, val)
+            if S2.dead:
+                continue
+            tk = [] if is_const(d) else [("when", stable(d), str(val))]
+            if val == 0:
+                it.cur = (bi, len(body.blocks[bi]["stmts"]))
+                S2.write(it.resolve(S2, Place(t["dest"])), ("agg", "core::option::Option", 0, ()))
+                self._edge(fr, bi, t["t"], S2, toks + tk, used, exiting, res, [])
+                self.body, self.it = fr.body, fr.it
+                continue
+            cit = Interp(self.ctx, cb, None)
+            cit.cond = self.it_cond
+            cit.site_tag = (fr.it.site_tag, body.key, bi) if getattr(fr.it, "site_tag", None) is not None else (body.key, bi)
+            self.entered.add(cb.key)
+            envt = cb.locals[1]["t"]
+            if envt.get("k") == "ref":
+                holder = (("V", (body.key, bi, "closure-env")), ())
+                S2.write(holder, clo)
+                S2.write((cit.L(1), ()), ("ref", holder))
+            else:
+                S2.write((cit.L(1), ()), clo)
+            S2.write((cit.L(2), ()), project(opt, (("dc", 1, "Some"), ("f", 0, "0"))))
+            nfr = Frame(cb, cit, (fr, bi, used, exiting, res), fr.depth + 1, wrap=lambda v: ("agg", "core::option::Option", 1, (v,)))
+            self._dfs(nfr, 0, toks + tk, {}, frozenset(), res, S2)
+            self.body, self.it = fr.body, fr.it
+        return True
+
     def _leave(self, fr, toks, S):
         """the callee returned: bind the result in the caller and go on after the call"""
         cfr, cbi, cused, cexiting, cres = fr.ret
         v = S.read((fr.it.L(0), ()))
+        if fr.wrap is not None:
+            v = fr.wrap(v)
         ct = cfr.body.blocks[cbi]["term"]
         self.body, self.it = cfr.body, cfr.it
         cfr.it.cur = (cbi, len(cfr.body.blocks[cbi]["stmts"]))
@@ -335,6 +384,10 @@ class Extractor:
             return
         if k == "call" and self._should_inline(fr, t):
             self._enter(fr, bi, toks, used, exiting, res, S)
+            self.body, self.it = fr.body, fr.it
+            del self.order[mark:]
+            return
+        if k == "call" and self.inline and self._option_map(fr, bi, toks, used, exiting, res, S):
             self.body, self.it = fr.body, fr.it
             del self.order[mark:]
             return
